@@ -250,7 +250,7 @@ impl Prop for C05P {
             }
             "near-miss-coercions" => {
                 let mut r = Rng::for_case(ctx.seed, 6, idx);
-                let c = crate::coerce::gen_coercion(&mut r, false);
+                let c = crate::coerce::gen_any(&mut r, false);
                 let src = print(&c.h, &Style::varied(&mut r), idx).text;
                 check_edited(ctx, &c.h, c.shape, &src);
             }
@@ -291,7 +291,7 @@ impl Prop for C05P {
             }
             "near-miss-coercions" => {
                 let mut r = Rng::for_case(seed, 6, idx);
-                let c = crate::coerce::gen_coercion(&mut r, false);
+                let c = crate::coerce::gen_any(&mut r, false);
                 print(&c.h, &Style::varied(&mut r), idx).text
             }
             "edited-explicit-programs" => {
